@@ -40,6 +40,21 @@ pub fn run(ctx: &mut Ctx) {
         let d = gen_doc(&mut rng, &g, names[0]);
         let mut st = Style::new(rng.fork());
         let mut bytes = write_doc(&d, &mut st).into_bytes();
+        if kind == "valid" && i % 16 == 0 {
+            // a large file with a multi-byte character across a 64 KiB / 128 KiB boundary (anything
+            // read or validated in blocks)
+            let boundary = *rng.pick(&[65536usize, 131072, 8192, 4096]);
+            let ch = *rng.pick(&["\u{e9}", "\u{20ac}", "\u{1F600}"]);
+            let mut big: Vec<u8> = b"<!--".to_vec();
+            let pad = boundary - 1 - big.len() - if rng.chance(1, 2) { 0 } else { ch.len() - 2 };
+            big.extend(std::iter::repeat(b'x').take(pad));
+            big.extend_from_slice(ch.as_bytes());
+            big.extend(std::iter::repeat(b'y').take(rng.range(10, 3000)));
+            big.extend_from_slice(b"-->");
+            big.extend_from_slice(&bytes);
+            bytes = big;
+            hist.add("input:large-file-multibyte-at-block-boundary");
+        }
         match kind {
             "malformed" => {
                 let bad: [&[u8]; 5] = [b"<a><b></a>", b"<a x=1/>", b"<a x='1' x='2'/>", b"<a></b>", b"<a><!-- "];
